@@ -20,6 +20,8 @@ func main() {
 		cmdVerify(os.Args[2:])
 	case "check":
 		cmdCheck(os.Args[2:])
+	case "replay":
+		cmdReplay(os.Args[2:])
 	default:
 		fmt.Fprintln(os.Stderr, "unknown command", os.Args[1])
 		os.Exit(2)
@@ -88,6 +90,14 @@ func cmdVerify(args []string) {
 		for _, n := range r.Notes {
 			if !strings.HasPrefix(n, "inlined ") {
 				fmt.Printf("   note: %s\n", n)
+			}
+		}
+		for _, p := range r.Probes {
+			if p.Result != "sat" {
+				fmt.Printf("   VACUITY? %s: %s -> %s [%s %.2fs]\n", p.Name, p.Desc, p.Result, p.Solver, p.Time)
+				if p.Result == "unsat" {
+					bad++
+				}
 			}
 		}
 		for _, d := range r.Dropped {
